@@ -253,6 +253,89 @@ pub fn run_c11(ctx: &Ctx) -> (&'static str, &'static str) {
             },
         );
     }
+    // the same lists handed over through OTHER KINDS OF ITERATOR: the argument is any IntoIterator, and what an iterator reports
+    // about its length (size_hint) is only a hint - lower bound 0, no upper bound, or a lower bound below the true length
+    // are all legal.  Every list of length 0..2 (thorough 0..3) x every kind.
+    {
+        struct Hinted<'a> {
+            items: std::vec::IntoIter<&'a (&'a G1Prepared, &'a G2Prepared)>,
+            hint: (usize, Option<usize>),
+        }
+        impl<'a> Iterator for Hinted<'a> {
+            type Item = &'a (&'a G1Prepared, &'a G2Prepared);
+            fn next(&mut self) -> Option<Self::Item> {
+                self.items.next()
+            }
+            fn size_hint(&self) -> (usize, Option<usize>) {
+                self.hint
+            }
+        }
+        const KINDS: [&str; 9] = [
+            "filter(|_| true) (lower bound 0)",
+            "flatten over batches of one",
+            "chain of two halves",
+            "skip_while(|_| false)",
+            "from_fn (no hints at all)",
+            "custom iterator, size_hint (0, None)",
+            "custom iterator, size_hint (0, Some(usize::MAX))",
+            "custom iterator, lower bound one below the length",
+            "rev()",
+        ];
+        let kmax = ctx.tier.pick(2usize, 3);
+        let mut lists: Vec<Vec<usize>> = vec![];
+        for len in 0..=kmax {
+            let rad: Vec<u64> = vec![np; len];
+            for i in 0..crate::infra::space(&rad) {
+                lists.push(unrank(i, &rad));
+            }
+        }
+        let rad = [KINDS.len() as u64, lists.len() as u64];
+        ctx.sweep(
+            "pair_lists.iterator_kinds",
+            crate::infra::space(&rad),
+            |i| {
+                let d = unrank(i, &rad);
+                json!({"iterator": KINDS[d[0]], "list": lists[d[1]].iter().map(|&k| pairs_exp[k].2).collect::<Vec<_>>()})
+            },
+            |i| {
+                let d = unrank(i, &rad);
+                let l = &lists[d[1]];
+                let mut esum = BigUint::zero();
+                for &k in l {
+                    esum = (esum + &contrib[k]) % r();
+                }
+                let want = gt.pow(&esum);
+                let refs: Vec<(&G1Prepared, &G2Prepared)> = l.iter().map(|&k| (&prep[k].0, &prep[k].1)).collect();
+                let n = refs.len();
+                let ml = guard(|| match d[0] {
+                    0 => Bls12::miller_loop(refs.iter().filter(|_| true)),
+                    1 => {
+                        let batches: Vec<Vec<(&G1Prepared, &G2Prepared)>> = refs.iter().map(|p| vec![*p]).collect();
+                        Bls12::miller_loop(batches.iter().flatten())
+                    }
+                    2 => Bls12::miller_loop(refs[..n / 2].iter().chain(refs[n / 2..].iter())),
+                    3 => Bls12::miller_loop(refs.iter().skip_while(|_| false)),
+                    4 => {
+                        let mut it = refs.iter();
+                        Bls12::miller_loop(std::iter::from_fn(move || it.next()))
+                    }
+                    5 => Bls12::miller_loop(Hinted { items: refs.iter().collect::<Vec<_>>().into_iter(), hint: (0, None) }),
+                    6 => Bls12::miller_loop(Hinted { items: refs.iter().collect::<Vec<_>>().into_iter(), hint: (0, Some(usize::MAX)) }),
+                    7 => Bls12::miller_loop(Hinted { items: refs.iter().collect::<Vec<_>>().into_iter(), hint: (n.saturating_sub(1), None) }),
+                    _ => {
+                        let rv: Vec<(&G1Prepared, &G2Prepared)> = refs.iter().rev().cloned().collect();
+                        Bls12::miller_loop(rv.iter().rev())
+                    }
+                })
+                .map_err(|m| Fail::new(format!("miller_loop panicked: {}", m)))?;
+                let fe = Bls12::final_exponentiation(&ml).ok_or_else(|| Fail::new("final_exponentiation of a Miller-loop output failed"))?;
+                if q12_of(&fe) != want {
+                    return Err(Fail::new(format!("final_exponentiation(miller_loop(list)) != product of the individual pairings when the list arrives through {}", KINDS[d[0]])));
+                }
+                Ok(if n == 0 { "empty list" } else { "list through another kind of iterator" })
+            },
+        );
+    }
     // longer lists with an identity at each position
     for len in [8usize, 9] {
         ctx.sweep(
